@@ -7,13 +7,21 @@ Tr == JsonDeserialize(IOEnv.TRACE_FILE)
 VARIABLES tid, l
 tvars == <<now, c, call, rd, wr, ws, dj, wj, hj, nid, tid, l>>
 
+\* executions of the threaded client under pre-emptive schedules mark their snapshots "relax":
+\* the outputs of one step (requests issued, events, returns of different tasks) are then
+\* compared as a bag, everything else exactly
+SameBag(a, b) ==
+    /\ Len(a) = Len(b)
+    /\ \A i \in 1..Len(a) : Cardinality({k \in 1..Len(a) : a[k] = a[i]})
+                              = Cardinality({k \in 1..Len(b) : b[k] = a[i]})
+
 Match(st) ==
     /\ now = st.now
     /\ c.st = st.st
     /\ c.sid = st.sid
     /\ c.tr = st.tr
     /\ c.ev = st.ev
-    /\ c.out = st.out
+    /\ IF "relax" \in DOMAIN st THEN SameBag(c.out, st.out) ELSE c.out = st.out
     /\ c.q = st.q
     /\ c.reg = st.reg
 
